@@ -390,8 +390,12 @@ def mix_struct(n):
     if n >= 8:
         add([(n - 8, 8)], 'i')
         add([(n - 8, 8)], 'n', access='r')
+    if n >= 10:
+        add([(1, 8)], 'i')                  # signed fields that do NOT end at bit N-1: a sign extension would hit visible bits
     if n >= 16:
         add([(n - 16, 16)], 'i')
+    if n >= 34:
+        add([(1, 32)], 'i')
     if n >= 32:
         add([(n - 32, 32)], 'i')
     if n >= 64:
